@@ -398,7 +398,7 @@ func (a *Act) intrinsic(name string, fv FuncV, args []Value) (Value, bool) {
 		return in.timeVal(in.named(argStr(args[0]), BVS(64))), true
 	case "verifF64":
 		return in.named(argStr(args[0]), FPSort), true
-	case "verifStr":
+	case "verifStr", "verifStrBuild":
 		return StrV{id: in.named(argStr(args[0]), BVS(32))}, true
 	case "verifAssume":
 		c := args[0].(*Term)
